@@ -820,11 +820,11 @@ func init() {
 		Required: []string{"probes", "race.cases", "race.ops.concurrent", "order.executions", "order.reference_tables", "segment.snapshots_compared", "segment.selftest.detected", "segment.deep_regions_compared", "exported.checks", "matrix.entry×entry", "segment.symbols"},
 		Streams: []fw.Stream{
 			// order first: its first case computes the reference digests before anything else of C20 ran in the process
-			{Name: "order", Quick: 24000, Thorough: 720000, Run: c20Order, NoRace: true},
-			{Name: "segment", Quick: 96, Thorough: 3200, Run: c20Segment, NoRace: true},
+			{Name: "order", Quick: 24000, Thorough: 1440000, Run: c20Order, NoRace: true},
+			{Name: "segment", Quick: 96, Thorough: 6400, Run: c20Segment, NoRace: true},
 			{Name: "probes", Quick: np, Thorough: np * 4, Run: c20Probe, NoRace: true},
 			{Name: "race-probes", Quick: np, Thorough: np * 8, Run: c20Probe, Race: true},
-			{Name: "race", Quick: 1200, Thorough: 30000, Run: c20Race, Race: true},
+			{Name: "race", Quick: 1200, Thorough: 60000, Run: c20Race, Race: true},
 		},
 	})
 }
